@@ -19,7 +19,8 @@ pub enum Behaviour {
     /// Read the complete request, write nothing, close.
     NoReply { rst: bool },
     /// Read the complete request, then write `segments` and close.
-    Reply { segments: Vec<Vec<u8>>, rst: bool },
+    /// `delay_ms`: pause before the first byte and between segments (a slow but live server).
+    Reply { segments: Vec<Vec<u8>>, rst: bool, delay_ms: u64 },
     /// Read the complete request, write `segments` (possibly none), then go silent while keeping
     /// the connection open until the client gives up (real time: the client's own timeout).
     Stall { segments: Vec<Vec<u8>> },
@@ -199,10 +200,13 @@ fn handle(mut s: TcpStream, b: &Behaviour, obs: &Arc<Mutex<Observed>>, stop: &Ar
         obs.lock().unwrap().stalled_for_ms = started.elapsed().as_millis() as u64;
         return;
     }
-    if let (Behaviour::Reply { segments, .. }, true) = (b, complete) {
+    if let (Behaviour::Reply { segments, delay_ms, .. }, true) = (b, complete) {
         let mut written = 0;
         for (i, seg) in segments.iter().enumerate() {
-            if i > 0 {
+            if *delay_ms > 0 {
+                // a slow server (real time, far below the client's 30 s timeout)
+                std::thread::sleep(Duration::from_millis(*delay_ms));
+            } else if i > 0 {
                 // only to encourage separate TCP segments; outcome-neutral
                 std::thread::sleep(Duration::from_millis(1));
             }
